@@ -44,9 +44,9 @@ let () =
   register "tt_model" (function [t] ->
       let t = table_of t in
       L [vstrs (TTable.states t); vstrs (TTable.events t); vstrs (TTable.actions t); vstrs (TTable.guards t);
-         L (List.map (fun (k, (a, e)) -> vstrs [k; a; e]) (TTable.actionsignatures t));
+         L (List.map (fun (a, e) -> vstrs [a; e]) (TTable.actionsignatures t));
          L (List.map (fun s -> L [S s; L (List.map (fun e -> L [S e; L (List.map vrow (TTable.trans_of t s e))])
-                                            (TTable.events_of t s))]) (TTable.src_states t));
+                                            (TTable.events_of t s))]) (TTable.tps_states t));
          S (TTable.getfirststate t)]
     | _ -> failwith "arity");
   register "table_interp" (function [t; evs; bits] ->
